@@ -8,6 +8,7 @@ package main
 
 import (
 	"bufio"
+	"fmt"
 	"crypto/rand"
 	"encoding/binary"
 	"encoding/json"
@@ -129,6 +130,14 @@ func fromRec(r PRec) *Payload {
 }
 
 
+func mustJSON(v any) []byte {
+	b, err := json.Marshal(v)
+	if err != nil {
+		panic(err)
+	}
+	return b
+}
+
 func idsOf(evs []sEvent) (ids, faulty []int) {
 	ids, faulty = []int{}, []int{}
 	for _, e := range evs {
@@ -150,9 +159,36 @@ func idsOf(evs []sEvent) (ids, faulty []int) {
 
 // playBehaviour executes one behaviour on the real nodes of cluster c (created on demand); the injected clock reads the
 // specification's instant plus offset. Returns the trace lines (also written by the cluster when it has an output).
+// realPayload finds, among the payloads the real node `from` has broadcast so far, the one a multi-node behaviour of the
+// specification means by r: the identical one if it exists, else the latest one of the same kind (type, height, view, sender;
+// requested view for a ChangeView). Closed loop: payloads under the identity of a real node are never made up by the driver.
+func realPayload(sent []*Payload, r PRec) *Payload {
+	want, _ := json.Marshal(r)
+	var byKey *Payload
+	for i := len(sent) - 1; i >= 0; i-- {
+		q := sent[i].Rec()
+		if q.T != r.T || q.H != r.H || q.V != r.V || q.From != r.From {
+			continue
+		}
+		if got, _ := json.Marshal(q); string(got) == string(want) {
+			return sent[i]
+		}
+		if byKey == nil && (r.NV == nil || (q.NV != nil && *q.NV == *r.NV)) {
+			byKey = sent[i]
+		}
+	}
+	return byKey
+}
+
+// scriptStats counts, over all multi-node behaviours of this process, how the closed loop resolved deliveries.
+var scriptStats struct{ Exact, ByKey, Skipped int }
+
 func playBehaviour(c *Cluster, evs []sEvent, offset int64) []*Line {
 	var lines []*Line
 	var vals []int
+	multi := len(evs) > 0 && evs[0].N != nil
+	sentBy := map[int][]*Payload{} // node id -> everything the real node has broadcast in this run
+	c.Tainted = false
 	c.Vals = func(h uint32) []int { return vals }
 	for _, e := range evs {
 		c.Clk.Now = e.Env.Now + offset
@@ -167,7 +203,7 @@ func playBehaviour(c *Cluster, evs []sEvent, offset int64) []*Line {
 			}
 			vals = e.Env.Ledger.Vals
 			n = NewNode(id, *e.Cfg, c, c.Clk)
-			n.Broadcast = func(*Node, *Payload) {}
+			n.Broadcast = func(n *Node, p *Payload) { sentBy[n.ID] = append(sentBy[n.ID], p.clone()) }
 			n.Height, n.TipHash, n.TipTs = e.Env.Ledger.Height, H(e.Env.Ledger.Tip), e.Env.Ledger.TipTs
 			c.Nodes = append(c.Nodes, n)
 			c.byID[id] = n
@@ -203,7 +239,23 @@ func playBehaviour(c *Cluster, evs []sEvent, offset int64) []*Line {
 			if err := json.Unmarshal(e.Arg, &r); err != nil {
 				panic(err)
 			}
-			l = n.Receive(fromRec(r))
+			p := fromRec(r)
+			if _, real := c.byID[r.From]; multi && real && r.From != id {
+				// the sender is a real node of this run: deliver what it really broadcast, or nothing
+				q := realPayload(sentBy[r.From], r)
+				if q == nil {
+					scriptStats.Skipped++
+					c.Tainted = true // the real cluster has left the behaviour the specification generated: no end-of-run verdict
+					continue
+				}
+				if a, _ := json.Marshal(q.Rec()); string(a) == string(mustJSON(r)) {
+					scriptStats.Exact++
+				} else {
+					scriptStats.ByKey++
+				}
+				p = q.clone()
+			}
+			l = n.Receive(p)
 		case "OnTimeout":
 			var a HV
 			_ = json.Unmarshal(e.Arg, &a)
@@ -281,7 +333,7 @@ func runScript(out *TraceWriter, path string, from, runs int, pairDelta int64) {
 		}
 		out.Write(RunStart{Call: "RunStart", Run: run, Seed: 0, Driver: "script", Nodes: ids, Faulty: faulty, Sync: evs[0].Sync, Params: params})
 		playBehaviour(c, evs, 0)
-		if last := evs[len(evs)-1]; (evs[0].Sync || evs[0].C09) && last.Done {
+		if last := evs[len(evs)-1]; (evs[0].Sync || evs[0].C09) && last.Done && !c.Tainted {
 			// the specification says this synchronous run is complete: every live node must have decided up to the target
 			end := RunEnd{Call: "RunEnd", Run: run, Now: c.Clk.Now, Target: evs[0].Target, Heights: [][]int{}, Live: []int{}}
 			for _, n := range c.Nodes {
@@ -296,5 +348,9 @@ func runScript(out *TraceWriter, path string, from, runs int, pairDelta int64) {
 			}
 			out.Write(end)
 		}
+	}
+	if scriptStats.Exact+scriptStats.ByKey+scriptStats.Skipped > 0 {
+		fmt.Fprintf(os.Stderr, "script: closed loop: %d deliveries identical to the specification's payload, %d replaced by the real node's payload of the same kind, %d skipped (never sent)\n",
+			scriptStats.Exact, scriptStats.ByKey, scriptStats.Skipped)
 	}
 }
